@@ -49,3 +49,12 @@ add("C06", "fault_enumeration",
     "The fault server acknowledges whatever well-framed POST body arrives (like a proxy that stores before parsing). That Close() returns "
     "nil when all three attempts were answered 5xx is recorded as a class, not asserted (the property does not demand an error).",
     "property-based testing (rapid): generated fault scripts, reference-serialisation oracle on every acknowledged attempt + race detector", "3/C06")
+add("C08", "exploration",
+    "(a) utils.ExponentialBackoffDuration is called for retry counts over the full unsigned range (dense around 11/12, powers of two, "
+    "2^32, max) and compared with the closed form min(2^n ms, 3 s) x [0.9,1.1] computed in big-integer arithmetic; a native fuzz target "
+    "repeats this in the thorough tier. (b) generated fail/succeed patterns of list calls are served to the real agent binary; lower "
+    "bounds on the observed gaps (a sleep never returns early) and a reset probe (k>=9 failures, success, failure => short gap, "
+    "confirmed on a second run) decide doubling, reset and absence of busy-looping.",
+    "Upper bounds on observed gaps are not asserted (load-sensitive) except in the reset probe, where the two alternatives differ by "
+    "two orders of magnitude. Connection-level failures retried inside Go's HTTP transport are not used as a failure kind.",
+    "property-based testing (rapid) against a closed-form oracle; native go fuzzing; generated failure patterns with timestamp lower bounds", "3/C08")
